@@ -13,7 +13,7 @@
                        data is the concatenation of their payloads, in order
      consec ps         consecutive sequence numbers modulo 2^16 *)
 From Coq Require Import ZArith List Bool Lia Permutation.
-From AV Require Import Lib.Bytes Gen.Utils Gen.JbConst Model.Jitter Proof.JitterP Proof.JitterInvP Proof.JitterShiftP Proof.JitterOrderP.
+From AV Require Import Lib.Bytes Gen.Utils Gen.JbConst Model.Jitter Proof.JitterP Proof.JitterInvP Proof.JitterShiftP Proof.JitterOrderP Proof.JitterCompleteP.
 Import ListNotations.
 Local Open Scope Z_scope.
 
@@ -82,6 +82,43 @@ Theorem C10_ordered : forall c pf v p l s outs,
 Proof. exact jitter_ordered. Qed.
 Print Assumptions C10_ordered.
 
+(* T+ C10_complete, in-order case (full strength for in-order delivery).  gs = the sender's frames:
+   wfg gs     every frame is a non-empty list of packets with one timestamp, neighbouring frames
+              have different timestamps;
+   the packets are numbered consecutively from b (mod 2^16) and arrive in order, each once;
+   Fit n c gs any n = max(prefetch,1) consecutive frames hold at most capacity-1 packets.
+   Then exactly the frames except the last max(prefetch,1) are released, each exactly once, in
+   order, byte for byte (gframe g = timestamp and concatenated payloads of g), and no key frame is
+   requested.  (capacity <= 32768: with capacity 65536 in-order packets more than 32768 ahead of
+   the origin count as misordered.) *)
+Theorem C10_complete_inorder : forall c pf v gs b s outs,
+  cap_ok c -> c <= 32768 -> 0 <= b < 65536 ->
+  wfg gs -> Fit (Z.to_nat (Z.max pf 1)) c gs ->
+  (forall j q, nth_error (concat gs) j = Some q -> pseq q = uint16_add b (Z.of_nat j)) ->
+  reaches c pf v (concat gs) s outs ->
+  released outs = map gframe (firstn (length gs - Z.to_nat (Z.max pf 1)) gs) /\
+  Forall (fun x : out => fst x = false) outs.
+Proof. exact jitter_complete_inorder. Qed.
+Print Assumptions C10_complete_inorder.
+
+(* The design's C10_complete ("every packet exactly once, displaced by less than the capacity =>
+   every frame except the trailing prefetch window is released") is FALSE for reordered delivery:
+   add() releases at most one frame per call, so the backlog that builds up while a hole is open is
+   never worked off.  Witness: capacity 8, prefetch 0, eight one-packet frames delivered as
+   0 2 3 4 5 1 6 7 (displacement <= 4): only 3 of the 8 frames come out, 5 stay in the buffer
+   (nothing is discarded, no PLI).  Replayed on the implementation by the harness
+   (known finding C10-K1, signature trailing-backlog). *)
+Theorem C10_complete_refuted :
+  exists s outs,
+    reaches 8 0 false wit_arrivals s outs /\
+    Permutation wit_arrivals wit_stream /\
+    (forall i p, nth_error wit_arrivals i = Some p -> Z.abs (Z.of_nat i - pseq p) < 8) /\
+    released outs = [mkFrame 0 [0]; mkFrame 1000 [1]; mkFrame 2000 [2]] /\
+    (Z.of_nat (length (released outs)) < Z.of_nat (length wit_stream) - 1) /\
+    held (slots s) = map wit_pkt [3; 4; 5; 6; 7].
+Proof. exact jitter_complete_refuted. Qed.
+Print Assumptions C10_complete_refuted.
+
 (* Origin independence (this is the jitter-buffer instance of C17, `jitter_shift_invariant`):
    adding ANY delta (mod 2^16) to every sequence number of ANY arrival list, from the empty
    buffer, gives exactly the same PLI flags and released frames (timestamps and data); the ring
@@ -129,3 +166,24 @@ Example C10_example_ordered :
   exists s outs, reaches 4 0 true ex_l2 s outs /\
     released outs = [mkFrame 10 [1; 2]; mkFrame 20 [3]].
 Proof. eexists; eexists. split; [apply reaches_check; vm_compute; reflexivity|reflexivity]. Qed.
+
+(* the hypotheses of C10_complete_inorder are satisfiable: three frames across the wrap, prefetch 0 *)
+Definition ex_gs : list (list pkt) :=
+  [[mkPkt 65535 10 [1]; mkPkt 0 10 [2]]; [mkPkt 1 20 [3]]; [mkPkt 2 30 [4]]].
+
+Example C10_example_inorder_hyps :
+  cap_ok 4 /\ wfg ex_gs /\ Fit (Z.to_nat (Z.max 0 1)) 4 ex_gs /\
+  (forall j q, nth_error (concat ex_gs) j = Some q -> pseq q = uint16_add 65535 (Z.of_nat j)) /\
+  concat ex_gs = ex_l2.
+Proof.
+  split; [exists 2; split; [lia|reflexivity]|]. split.
+  { exists 10. split; [split; [discriminate|repeat constructor]|].
+    exists 20. split; [lia|]. split; [split; [discriminate|repeat constructor]|].
+    exists 30. split; [lia|]. split; [split; [discriminate|repeat constructor]|exact I]. }
+  split.
+  { intros i n Hn. change (Z.to_nat (Z.max 0 1)) with 1%nat in Hn. change (Z.to_nat 4 - 1)%nat with 3%nat.
+    destruct n as [|[|n]]; [destruct (skipn i ex_gs); cbn; lia| |lia].
+    do 3 (destruct i as [|i]; [cbn; lia|]). destruct i; cbn; lia. }
+  split; [|reflexivity].
+  intros j q E. do 4 (destruct j as [|j]; [injection E as <-; reflexivity|]). destruct j; discriminate.
+Qed.
